@@ -461,9 +461,21 @@ func (e *Exec) readOnlyOps(op Op) {
 		unregisterFS(sub.fs)
 	}
 	// the read-only open
+	// now and then the application's OpenFile hook fails once during the
+	// read-only open: the open may fail, or fall back to an older complete
+	// file if there is one - but it must not report success with something
+	// else, and the directory stays untouched as always
 	rofs := NewFS(roDir, nil)
+	if simrt.Chance(0.15, "ro-open-fault") {
+		rofs.FailOpenAt = 1 + simrt.Choose(3, "ro-open-fault-at")
+	}
 	registerFS(rofs)
 	defer unregisterFS(rofs)
+	defer func() {
+		for k, v := range rofs.Fired {
+			e.fs.Fired["ro-"+k] += v
+		}
+	}()
 	sub := &Exec{c: e.c, hist: NewHistory(), out: e.out, probes: map[string]bool{}, shapes: e.shapes, noRoundChecks: true}
 	sub.fs = rofs
 	defer func() {
@@ -486,7 +498,10 @@ func (e *Exec) readOnlyOps(op Op) {
 			if derr != nil {
 				fail("ro-content", "reading: %v", derr)
 			}
-			if expect != nil && got.Canon() != expect.Canon() {
+			if rofs.FaultSeen > 0 && nValid >= 2 {
+				// another data file may legitimately have been served
+				e.probe("ro-open-fault-fallback-possible")
+			} else if expect != nil && got.Canon() != expect.Canon() {
 				fail("ro-content", "serves other content than a read-write open of a copy: %s", expect.Diff(got, ""))
 			}
 			sub.hist = NewHistory()
